@@ -14,6 +14,7 @@ import (
 	"go/ast"
 	"go/token"
 	"go/types"
+	"regexp"
 	"strings"
 )
 
@@ -117,8 +118,15 @@ func (f *fn) stmts(list []ast.Stmt, k kont, fl *flow) string {
 	return f.stmt(list[0], func() string { return f.stmts(list[1:], k, fl) }, fl)
 }
 
+func (f *fn) lt(lv *lvar) string {
+	if lv.leanT != "" {
+		return lv.leanT
+	}
+	return f.x.leanType(lv.typ, lv.nat)
+}
+
 func (f *fn) letVar(lv *lvar, rhs string) string {
-	return "let " + lv.name + " : " + f.x.leanType(lv.typ, lv.nat) + " := " + rhs + "\n"
+	return "let " + lv.name + " : " + f.lt(lv) + " := " + rhs + "\n"
 }
 
 func (f *fn) lvarOf(id *ast.Ident) *lvar {
@@ -430,6 +438,9 @@ func (f *fn) stmt(s ast.Stmt, k kont, fl *flow) string {
 	case *ast.SwitchStmt:
 		return f.switchStmt(s, k, fl)
 
+	case *ast.TypeSwitchStmt:
+		return f.typeSwitchStmt(s, k, fl)
+
 	case *ast.ForStmt:
 		return f.forStmt(s, k, fl)
 
@@ -499,6 +510,9 @@ func (f *fn) effectful(c *ast.CallExpr) *fnInfo {
 	if tv, ok := f.pkg.info.Types[c.Fun]; ok && tv.IsType() {
 		return nil
 	}
+	if lv, _ := f.absRecv(c); lv != nil {
+		return nil
+	}
 	fo := f.calleeOf(c)
 	if fo == nil || isErrorMaker(fo) || f.isMutexCall(c) {
 		return nil
@@ -542,6 +556,12 @@ func (f *fn) callStatement(c *ast.CallExpr, k kont) string {
 			}
 			f.unsupported(c, "builtin %s as a statement", b.Name())
 		}
+	}
+	if lv, m := f.absRecv(c); lv != nil {
+		if !hasSliceParam(m) {
+			return k() // an observation whose result is dropped
+		}
+		return f.absCall(c, lv, m, nil, k)
 	}
 	fo := f.calleeOf(c)
 	if fo == nil {
@@ -743,7 +763,27 @@ func (f *fn) recvPath(sel *ast.SelectorExpr) (*lvar, []step, []string) {
 // x, y := f(…)  /  v, ok := m[k]
 func (f *fn) multiAssign(s *ast.AssignStmt, k kont) string {
 	switch r := s.Rhs[0].(type) {
+	case *ast.TypeAssertExpr:
+		id, ok := r.X.(*ast.Ident)
+		if !ok || len(s.Lhs) != 2 || r.Type == nil {
+			f.unsupported(s, "type assertion")
+		}
+		src := f.lvarOf(id)
+		if src.abs == nil {
+			f.unsupported(s, "type assertion on a value of a type that is not an abstracted interface")
+		}
+		okv := val{s: fmt.Sprintf("(%s.dyn == %q)", src.name, dynName(f.typeOf(r.Type))), t: types.Typ[types.Bool]}
+		rest := func() string { return f.assignTo(s.Lhs[1], okv, k) }
+		if lid, ok := s.Lhs[0].(*ast.Ident); ok && lid.Name == "_" {
+			return rest()
+		}
+		// the narrowed value is the same observation record (only meaningful when ok)
+		dst := f.lvarOf(s.Lhs[0].(*ast.Ident))
+		return f.letVar(dst, src.name) + rest()
 	case *ast.CallExpr:
+		if lv, m := f.absRecv(r); lv != nil {
+			return f.absCall(r, lv, m, s.Lhs, k)
+		}
 		if sel, ok := r.Fun.(*ast.SelectorExpr); ok {
 			if fi := f.externField(sel.X); fi != nil {
 				return f.externCall(s.Lhs, r, fi, k)
@@ -910,6 +950,17 @@ func (f *fn) assignedOuter(lists [][]ast.Stmt) []*lvar {
 					note(n.X, lo, hi)
 				case *ast.CallExpr:
 					// mutating method calls and delete/copy change their receiver/target
+					if lv, _ := f.absRecv(n); lv != nil {
+						// observations change nothing but the byte slices passed to them
+						if m := f.absMethod(n); m != nil && hasSliceParam(m) {
+							for _, a := range n.Args {
+								if kk := kindOf(f.typeOf(a)); kk == kBytes || kk == kSlice {
+									note(a, lo, hi)
+								}
+							}
+						}
+						return true
+					}
 					if sel, ok := n.Fun.(*ast.SelectorExpr); ok && !f.isExternCall(n) {
 						if _, ok := f.pkg.info.Selections[sel]; ok {
 							if fo := f.calleeOf(n); fo != nil && !f.isMutexCall(n) && !f.x.isSpecial(fo) {
@@ -1005,7 +1056,7 @@ func (f *fn) ifChain(n ast.Node, brs []branch, els []ast.Stmt, k kont, fl *flow)
 				var head string
 				if len(outs) == 1 {
 					o := outs[0]
-					head = "let " + o.name + " : " + f.x.leanType(o.typ, o.nat) + " :=\n" + indent(b.String()) + "\n"
+					head = "let " + o.name + " : " + f.lt(o) + " :=\n" + indent(b.String()) + "\n"
 				} else {
 					name := fmt.Sprintf("join%d", f.tmpN)
 					f.tmpN++
@@ -1018,7 +1069,7 @@ func (f *fn) ifChain(n ast.Node, brs []branch, els []ast.Stmt, k kont, fl *flow)
 						if i < len(outs)-1 {
 							p += ".1"
 						}
-						head += "let " + o.name + " : " + f.x.leanType(o.typ, o.nat) + " := " + p + "\n"
+						head += "let " + o.name + " : " + f.lt(o) + " := " + p + "\n"
 					}
 				}
 				return f.guarded(condG, head+k())
@@ -1030,6 +1081,18 @@ func (f *fn) ifChain(n ast.Node, brs []branch, els []ast.Stmt, k kont, fl *flow)
 			f.escaped = true
 		}
 	}
+	falls := 0
+	if fallsThrough(els) {
+		falls++
+	}
+	for _, br := range brs {
+		if fallsThrough(br.body) {
+			falls++
+		}
+	}
+	if falls >= 2 {
+		k = f.joinPoint(n, k)
+	}
 	var b strings.Builder
 	for i, br := range brs {
 		if i > 0 {
@@ -1039,6 +1102,159 @@ func (f *fn) ifChain(n ast.Node, brs []branch, els []ast.Stmt, k kont, fl *flow)
 	}
 	b.WriteString("\nelse\n" + indent(f.stmts(els, k, fl)))
 	return f.guarded(condG, b.String())
+}
+
+// dynName: the name of a dynamic type as it appears in the `dyn` field
+func dynName(t types.Type) string {
+	return types.TypeString(t, func(p *types.Package) string { return p.Name() })
+}
+
+// typeSwitchStmt: `switch x := v.(type)` over a value of an abstracted interface;
+// the clauses test `v.dyn`, the symbol x is v itself
+func (f *fn) typeSwitchStmt(s *ast.TypeSwitchStmt, k kont, fl *flow) string {
+	if s.Init != nil {
+		f.unsupported(s, "type switch with init statement")
+	}
+	var ta *ast.TypeAssertExpr
+	switch a := s.Assign.(type) {
+	case *ast.AssignStmt:
+		ta, _ = a.Rhs[0].(*ast.TypeAssertExpr)
+	case *ast.ExprStmt:
+		ta, _ = a.X.(*ast.TypeAssertExpr)
+	}
+	src := f.lvarOf(ta.X.(*ast.Ident))
+	var brs []branch
+	var els []ast.Stmt
+	for i, c := range s.Body.List {
+		cc := c.(*ast.CaseClause)
+		if cc.List == nil {
+			if i != len(s.Body.List)-1 {
+				f.unsupported(cc, "default clause that is not last")
+			}
+			els = cc.Body
+			continue
+		}
+		var conds []string
+		for _, e := range cc.List {
+			if id, ok := e.(*ast.Ident); ok && id.Name == "nil" {
+				f.unsupported(e, "case nil")
+			}
+			conds = append(conds, fmt.Sprintf("(%s.dyn == %q)", src.name, dynName(f.typeOf(e))))
+		}
+		cond := strings.Join(conds, " || ")
+		if len(conds) > 1 {
+			cond = "(" + cond + ")"
+		}
+		brs = append(brs, branch{cond: cond, body: cc.Body, node: cc})
+	}
+	inner := fl.with(k, nil, "")
+	if len(brs) == 0 {
+		return f.stmts(els, k, inner)
+	}
+	return f.ifChain(s, brs, els, k, inner)
+}
+
+// absRecv: the call is a method call on a value of an abstracted interface
+// (returns the variable and the method)
+func (f *fn) absRecv(c *ast.CallExpr) (*lvar, *types.Func) {
+	sel, ok := c.Fun.(*ast.SelectorExpr)
+	if !ok {
+		return nil, nil
+	}
+	id, ok := sel.X.(*ast.Ident)
+	if !ok {
+		return nil, nil
+	}
+	o := f.pkg.info.Uses[id]
+	v, ok := o.(*types.Var)
+	if !ok {
+		return nil, nil
+	}
+	lv, ok := f.vars[v]
+	if !ok || lv.abs == nil {
+		return nil, nil
+	}
+	// the method of the interface with that name (the static type may be a narrowed concrete type)
+	it := lv.abs.named.Underlying().(*types.Interface)
+	for i := 0; i < it.NumMethods(); i++ {
+		if it.Method(i).Name() == sel.Sel.Name {
+			return lv, it.Method(i)
+		}
+	}
+	// a method of the concrete type the value was narrowed to (type switch / assertion):
+	// also an observation, meaningful only when `dyn` is that type
+	if fo := f.calleeOf(c); fo != nil {
+		return lv, fo
+	}
+	f.unsupported(c, "method %s of the abstracted value %s", sel.Sel.Name, lv.name)
+	return nil, nil
+}
+
+func (f *fn) absMethod(c *ast.CallExpr) *types.Func {
+	_, m := f.absRecv(c)
+	return m
+}
+
+func hasSliceParam(m *types.Func) bool {
+	sig := m.Type().(*types.Signature)
+	for i := 0; i < sig.Params().Len(); i++ {
+		if k := kindOf(sig.Params().At(i).Type()); k == kBytes || k == kSlice {
+			return true
+		}
+	}
+	return false
+}
+
+// absCall: call of an observation with byte-slice arguments: the slices are
+// written back to the argument expressions, the results bound to lhs (nil: dropped)
+func (f *fn) absCall(c *ast.CallExpr, lv *lvar, m *types.Func, lhs []ast.Expr, k kont) string {
+	of := f.x.observation(lv.abs, m)
+	sig := m.Type().(*types.Signature)
+	text := lv.name + "." + of.lean
+	var g []string
+	var sliceArgs []ast.Expr
+	for i, a := range c.Args {
+		v := f.expr(a)
+		g = append(g, v.g...)
+		pt := sig.Params().At(i).Type()
+		text += " " + f.as(f.convVal(v, pt, a), false, a)
+		if kk := kindOf(pt); kk == kBytes || kk == kSlice {
+			sliceArgs = append(sliceArgs, a)
+		}
+	}
+	n := len(sliceArgs) + sig.Results().Len()
+	out := fmt.Sprintf("obs%d", f.tmpN)
+	f.tmpN++
+	proj := func(i int) string {
+		if n == 1 {
+			return out
+		}
+		s := out
+		for j := 0; j < i; j++ {
+			s += ".2"
+		}
+		if i < n-1 {
+			s += ".1"
+		}
+		return s
+	}
+	if lhs != nil && len(lhs) != sig.Results().Len() {
+		f.unsupported(c, "results of %s assigned to %d targets", m.Name(), len(lhs))
+	}
+	var chain func(i int) string
+	chain = func(i int) string {
+		if i < len(sliceArgs) {
+			root, steps, pg := f.lvaluePath(sliceArgs[i])
+			nv, ug := f.update(root.name, steps, proj(i))
+			return f.guarded(append(pg, ug...), f.letVar(root, nv)+chain(i+1))
+		}
+		j := i - len(sliceArgs)
+		if lhs == nil || j == len(lhs) {
+			return k()
+		}
+		return f.assignTo(lhs[j], val{s: proj(i), t: sig.Results().At(j).Type()}, func() string { return chain(i + 1) })
+	}
+	return f.guarded(g, "let "+out+" := "+text+"\n"+chain(0))
 }
 
 func (f *fn) switchStmt(s *ast.SwitchStmt, k kont, fl *flow) string {
@@ -1221,11 +1437,7 @@ func (f *fn) resultType() string {
 func (f *fn) binders(ps []*lvar) string {
 	var b strings.Builder
 	for _, p := range ps {
-		if p.leanT != "" {
-			b.WriteString(" (" + p.name + " : " + p.leanT + ")")
-			continue
-		}
-		b.WriteString(" (" + p.name + " : " + f.x.leanType(p.typ, p.nat) + ")")
+		b.WriteString(" (" + p.name + " : " + f.lt(p) + ")")
 	}
 	return b.String()
 }
@@ -1238,6 +1450,146 @@ func (f *fn) argNames(ps []*lvar) string {
 	return b.String()
 }
 
+// scopeBinder: a name bound by an enclosing auxiliary definition that is not a
+// Go variable (the iteration budget, the unvisited rest of a ranged slice)
+type scopeBinder struct{ name, typ string }
+
+var wordRe = map[string]*regexp.Regexp{}
+
+func mentions(text, name string) bool {
+	re, ok := wordRe[name]
+	if !ok {
+		re = regexp.MustCompile(`(^|[^A-Za-z0-9_.])` + regexp.QuoteMeta(name) + `($|[^A-Za-z0-9_])`)
+		wordRe[name] = re
+	}
+	return re.MatchString(text)
+}
+
+// extraBinders: the function's `fuel` argument and the binders of enclosing
+// loops, as far as the text of a new auxiliary definition mentions them
+func (f *fn) extraBinders(text string) (string, string) {
+	b, a := "", ""
+	if mentions(text, "fuel") {
+		b, a = " (fuel : Nat)", " fuel"
+	}
+	for _, sb := range f.loopBinders {
+		if mentions(text, sb.name) {
+			b += " (" + sb.name + " : " + sb.typ + ")"
+			a += " " + sb.name
+		}
+	}
+	return b, a
+}
+
+// loopExtra: binders a loop definition needs besides its own: the function's
+// `fuel` (when another budgeted loop or a call that takes a budget is reachable
+// from the loop) and the binders of the enclosing loops
+func (f *fn) loopExtra(from token.Pos, self ast.Node) (string, string) {
+	b, a := "", ""
+	need := false
+	ast.Inspect(f.decl.Body, func(n ast.Node) bool {
+		if n == nil || need {
+			return false
+		}
+		switch n := n.(type) {
+		case *ast.ForStmt:
+			if n != self && n.Pos() >= from {
+				if n.Init == nil && f.countingBudget(n) == "" {
+					need = true
+				}
+				if n.Init != nil {
+					c := *n
+					c.Init = nil
+					if f.countingBudget(&c) == "" {
+						need = true
+					}
+				}
+			}
+		case *ast.CallExpr:
+			if n.Pos() >= from {
+				if tv, ok := f.pkg.info.Types[n.Fun]; ok && tv.IsType() {
+					return true
+				}
+				if lv, _ := f.absRecv(n); lv != nil || f.isExternCall(n) || f.isMutexCall(n) {
+					return true
+				}
+				if fo := f.calleeOf(n); fo != nil && !isErrorMaker(fo) && !f.x.isSpecial(fo) {
+					if ci := f.x.translate(fo, f, n); ci.fuel {
+						need = true
+					}
+				}
+			}
+		}
+		return true
+	})
+	if need {
+		b, a = " (fuel : Nat)", " fuel"
+	}
+	for _, sb := range f.loopBinders {
+		b += " (" + sb.name + " : " + sb.typ + ")"
+		a += " " + sb.name
+	}
+	return b, a
+}
+
+// joinPoint: when the code after a conditional would be inlined into several
+// branches and is not tiny, it becomes an auxiliary definition of its own
+func (f *fn) joinPoint(n ast.Node, k kont) kont {
+	text := k()
+	if strings.Count(text, "\n") < 6 {
+		return func() string { return text }
+	}
+	from := n.End()
+	if f.outerLoop != token.NoPos {
+		from = f.outerLoop
+	}
+	params := f.loopParams(n.End(), from)
+	f.joinN++
+	name := fmt.Sprintf("%s.join%d", f.info.lean, f.joinN)
+	eb, ea := f.extraBinders(text)
+	f.aux = append(f.aux, fmt.Sprintf("/-- `%s`: the code after the conditional that ends at %s -/\ndef %s%s%s : %s :=\n%s\n",
+		f.goName, f.shortPosEnd(n), name, eb, f.binders(params), f.resultType(), indent(text)))
+	call := name + ea + f.argNames(params)
+	return func() string { return call }
+}
+
+func (f *fn) shortPosEnd(n ast.Node) string {
+	p := fset.Position(n.End())
+	return fmt.Sprintf("line %d", p.Line)
+}
+
+// fallsThrough: the statement list can reach its end (syntactic approximation)
+func fallsThrough(list []ast.Stmt) bool {
+	if len(list) == 0 {
+		return true
+	}
+	switch s := list[len(list)-1].(type) {
+	case *ast.ReturnStmt, *ast.BranchStmt:
+		return false
+	case *ast.ExprStmt:
+		if c, ok := s.X.(*ast.CallExpr); ok {
+			if id, ok := c.Fun.(*ast.Ident); ok && id.Name == "panic" {
+				return false
+			}
+		}
+	case *ast.BlockStmt:
+		return fallsThrough(s.List)
+	case *ast.IfStmt:
+		if s.Else == nil {
+			return true
+		}
+		var el []ast.Stmt
+		switch e := s.Else.(type) {
+		case *ast.BlockStmt:
+			el = e.List
+		default:
+			el = []ast.Stmt{e}
+		}
+		return fallsThrough(s.Body.List) || fallsThrough(el)
+	}
+	return true
+}
+
 // afterLoop: the continuation after a loop, as its own definition when the
 // loop body can `break` (so that the text is not duplicated)
 func (f *fn) afterLoop(name string, hasBreak bool, params []*lvar, k kont) kont {
@@ -1246,9 +1598,10 @@ func (f *fn) afterLoop(name string, hasBreak bool, params []*lvar, k kont) kont 
 	}
 	text := k()
 	an := name + "_after"
-	f.aux = append(f.aux, fmt.Sprintf("/-- `%s`: the code after loop `%s` -/\ndef %s%s : %s :=\n%s\n",
-		f.goName, name, an, f.binders(params), f.resultType(), indent(text)))
-	call := an + f.argNames(params)
+	eb, ea := f.extraBinders(text)
+	f.aux = append(f.aux, fmt.Sprintf("/-- `%s`: the code after loop `%s` -/\ndef %s%s%s : %s :=\n%s\n",
+		f.goName, name, an, eb, f.binders(params), f.resultType(), indent(text)))
+	call := an + ea + f.argNames(params)
 	return func() string { return call }
 }
 
@@ -1294,7 +1647,8 @@ func (f *fn) rangeStmt(s *ast.RangeStmt, k kont, fl *flow) string {
 		keyA = " " + key.name
 		keyNext = " (" + key.name + " + 1)"
 	}
-	recCall := name + f.argNames(params) + keyNext + " " + restName
+	eb, ea := f.loopExtra(from, s)
+	recCall := name + ea + f.argNames(params) + keyNext + " " + restName
 	saveOuter := f.outerLoop
 	if f.outerLoop == token.NoPos {
 		f.outerLoop = s.Pos()
@@ -1302,17 +1656,19 @@ func (f *fn) rangeStmt(s *ast.RangeStmt, k kont, fl *flow) string {
 	after := f.afterLoop(name, containsBreakTo(s.Body, label), params, k)
 	contK := func() string { return recCall }
 	inner := fl.with(after, contK, label)
+	f.loopBinders = append(f.loopBinders, scopeBinder{restName, "List " + paren(elT)})
 	body := f.stmts(s.Body.List, contK, inner)
+	f.loopBinders = f.loopBinders[:len(f.loopBinders)-1]
 	exit := after()
 	f.outerLoop = saveOuter
 	def := fmt.Sprintf("/-- `%s`: `for %s := range %s` at %s; `%s` is the part of the slice not yet visited -/\n"+
-		"def %s%s%s (%s : List %s) : %s :=\n  match %s with\n  | [] =>\n%s\n  | %s :: %s =>\n%s\n",
+		"def %s%s%s%s (%s : List %s) : %s :=\n  match %s with\n  | [] =>\n%s\n  | %s :: %s =>\n%s\n",
 		f.goName, rangeVars(s), exprStr(s.X), f.shortPos(s), restName,
-		name, f.binders(params), keyB, restName, paren(elT), f.resultType(),
+		name, eb, f.binders(params), keyB, restName, paren(elT), f.resultType(),
 		restName, indent(indent(exit)), hdName, restName, indent(indent(body)))
 	f.aux = append(f.aux, def)
 	_ = keyA
-	start := name + f.argNames(params)
+	start := name + ea + f.argNames(params)
 	if key != nil {
 		start += " 0"
 	}
@@ -1361,7 +1717,8 @@ func (f *fn) forStmt(s *ast.ForStmt, k kont, fl *flow) string {
 	f.loopN++
 	name := fmt.Sprintf("%s.loop%d", f.info.lean, f.loopN)
 	fuelName := fmt.Sprintf("fuel%d", f.loopN)
-	recCall := name + " " + fuelName + f.argNames(params)
+	eb, ea := f.loopExtra(from, s)
+	recCall := name + ea + " " + fuelName + f.argNames(params)
 	saveOuter := f.outerLoop
 	if f.outerLoop == token.NoPos {
 		f.outerLoop = s.Pos()
@@ -1375,17 +1732,21 @@ func (f *fn) forStmt(s *ast.ForStmt, k kont, fl *flow) string {
 	}
 	inner := fl.with(after, contK, label)
 	var step string
+	f.loopBinders = append(f.loopBinders, scopeBinder{fuelName, "Nat"})
 	if s.Cond != nil {
 		c := f.expr(s.Cond)
-		step = f.guarded(c.g, "if "+c.s+" then\n"+indent(f.stmts(s.Body.List, contK, inner))+"\nelse\n"+indent(after()))
+		bodyT := f.stmts(s.Body.List, contK, inner)
+		f.loopBinders = f.loopBinders[:len(f.loopBinders)-1]
+		step = f.guarded(c.g, "if "+c.s+" then\n"+indent(bodyT)+"\nelse\n"+indent(after()))
 	} else {
 		step = f.stmts(s.Body.List, contK, inner)
+		f.loopBinders = f.loopBinders[:len(f.loopBinders)-1]
 	}
 	f.outerLoop = saveOuter
 	def := fmt.Sprintf("/-- `%s`: `for %s` at %s; `%s` bounds the number of iterations -/\n"+
-		"def %s (%s : Nat)%s : %s :=\n  match %s with\n  | 0 => Res.fuel\n  | %s + 1 =>\n%s\n",
+		"def %s%s (%s : Nat)%s : %s :=\n  match %s with\n  | 0 => Res.fuel\n  | %s + 1 =>\n%s\n",
 		f.goName, forHead(s), f.shortPos(s), fuelName,
-		name, fuelName, f.binders(params), f.resultType(),
+		name, eb, fuelName, f.binders(params), f.resultType(),
 		fuelName, fuelName, indent(indent(step)))
 	f.aux = append(f.aux, def)
 	budget := f.countingBudget(s)
@@ -1393,7 +1754,7 @@ func (f *fn) forStmt(s *ast.ForStmt, k kont, fl *flow) string {
 		f.needFuel = true
 		budget = "fuel"
 	}
-	return name + " " + budget + f.argNames(params)
+	return name + ea + " " + budget + f.argNames(params)
 }
 
 func forHead(s *ast.ForStmt) string {
@@ -1428,26 +1789,110 @@ func (f *fn) countingBudget(s *ast.ForStmt) string {
 		return ""
 	}
 	iv := f.lvarOf(id)
-	assigned := f.assignedOuter([][]ast.Stmt{s.Body.List})
-	bad := false
-	for _, a := range assigned {
-		if a == iv {
-			bad = true
+	// what the body assigns: whole variables, or single fields of a struct variable
+	whole := map[*lvar]bool{}
+	fields := map[*lvar]map[string]bool{}
+	// root variable and the field directly below it that an lvalue (or a read) refers to
+	rootField := func(e ast.Expr) (ast.Expr, string) {
+		field := ""
+		for {
+			switch x := e.(type) {
+			case *ast.ParenExpr:
+				e = x.X
+				continue
+			case *ast.SelectorExpr:
+				field = x.Sel.Name
+				e = x.X
+				continue
+			case *ast.IndexExpr:
+				field = ""
+				e = x.X
+				continue
+			case *ast.SliceExpr:
+				field = ""
+				e = x.X
+				continue
+			}
+			break
 		}
+		return e, field
+	}
+	mark := func(e ast.Expr) {
+		root, field := rootField(e)
+		rid, ok := root.(*ast.Ident)
+		if !ok {
+			return
+		}
+		v, ok := f.pkg.info.Uses[rid].(*types.Var)
+		if !ok {
+			return
+		}
+		lv, ok := f.vars[v]
+		if !ok {
+			return
+		}
+		if field == "" {
+			whole[lv] = true
+			return
+		}
+		if fields[lv] == nil {
+			fields[lv] = map[string]bool{}
+		}
+		fields[lv][field] = true
+	}
+	bad := false
+	for _, st := range s.Body.List {
+		ast.Inspect(st, func(n ast.Node) bool {
+			switch n := n.(type) {
+			case *ast.AssignStmt:
+				for _, l := range n.Lhs {
+					mark(l)
+				}
+			case *ast.IncDecStmt:
+				mark(n.X)
+			case *ast.CallExpr:
+				if id, ok := n.Fun.(*ast.Ident); ok {
+					if _, isB := f.pkg.info.Uses[id].(*types.Builtin); isB {
+						if (id.Name == "delete" || id.Name == "copy") && len(n.Args) > 0 {
+							mark(n.Args[0])
+						}
+						return true
+					}
+				}
+				if tv, ok := f.pkg.info.Types[n.Fun]; ok && tv.IsType() {
+					return true
+				}
+				bad = true // any other call in the body: give up (it might change the bound)
+			}
+			return true
+		})
+	}
+	if whole[iv] || fields[iv] != nil {
+		bad = true
 	}
 	ast.Inspect(be.Y, func(n ast.Node) bool {
-		if x, ok := n.(*ast.Ident); ok {
-			if v, ok := f.pkg.info.Uses[x].(*types.Var); ok {
-				if lv, ok := f.vars[v]; ok {
-					for _, a := range assigned {
-						if a == lv {
+		switch x := n.(type) {
+		case *ast.SelectorExpr:
+			root, field := rootField(x)
+			if rid, ok := root.(*ast.Ident); ok {
+				if v, ok := f.pkg.info.Uses[rid].(*types.Var); ok {
+					if lv, ok := f.vars[v]; ok {
+						if whole[lv] || fields[lv][field] {
 							bad = true
 						}
 					}
 				}
 			}
-		}
-		if _, ok := n.(*ast.CallExpr); ok {
+			return false
+		case *ast.Ident:
+			if v, ok := f.pkg.info.Uses[x].(*types.Var); ok {
+				if lv, ok := f.vars[v]; ok {
+					if whole[lv] || fields[lv] != nil {
+						bad = true
+					}
+				}
+			}
+		case *ast.CallExpr:
 			bad = true
 		}
 		return true
